@@ -276,10 +276,47 @@ def rule_bp_handoff(ctx, rep):
     pat.require(keep, "bp fork hand-off instances vanished")
 
 
+def rule_hooks(ctx, rep):
+    """The hash table's fork hooks (registered through urcu_register_rculfhash_atfork) bracket the fork like the call_rcu
+    handlers themselves: before_fork / after_fork_parent / after_fork_child each invoke their hook on *every* returning
+    path on which a hook is registered.  A handler that skips its hook on some path leaves the resize work queue paused,
+    its nesting counter raised and cds_lfht_fork_mutex held in that process."""
+    for fl in ALL:
+        F = FL[fl]
+        for suffix, field in (("call_rcu_before_fork", "before_fork"), ("call_rcu_after_fork_parent", "after_fork_parent"), ("call_rcu_after_fork_child", "after_fork_child")):
+            f = ctx.fn(F.lib, F.pfx + "_" + suffix)
+            rep.touch(f)
+            hooks = [i for i in f.all_insts() if i.op == "icall" and (lambda e: e[0] == "load" and e[1].endswith("urcu_atfork." + field))(ir.expr(f, i.d["fp"]))]
+            pat.require(hooks, "%s: no call through urcu_atfork.%s" % (f.name, field))
+            none = [(t.blk.id, s_) for t, s_, a in pat.branch_edges_on(f, lambda a: a[0] == "eq" and a[2] == ("c", 0) and a[1][0] == "load" and a[1][1] == "@registered_rculfhash_atfork")]
+            pat.require(none, "%s: test of registered_rculfhash_atfork not found" % f.name)
+            rep.must_pass("C16.hooks", "%s.%s.every-return" % (fl, field), f, [f.entry()], None, lambda i: i in hooks, edge_ok=pat.block_edge_filter(none), to_exit=True,
+                          include_start=True, what="every returning path on which a hash-table fork hook is registered invokes urcu_atfork.%s" % field)
+            for h in hooks:
+                pr = ir.expr(f, h.args[0], 4) if h.args else None
+                rep.check(pr is not None and pr[0] == "load" and pr[1].endswith("urcu_atfork.priv"), "C16.hooks", "%s.%s.priv" % (fl, field), "hook receives the registered private pointer",
+                          "hook called with %s" % ir.expr_str(pr), [h.where()])
+    # the three hooks themselves pair up: nesting counter ++ in before, -- in both after handlers, same guard constant
+    m = ctx.mod("cds", "flat")
+    for name, op in (("cds_lfht_before_fork", "inc"), ("cds_lfht_after_fork_parent", "dec"), ("cds_lfht_after_fork_child", "dec")):
+        f = m.fn(name)
+        pat.require(f is not None, name + " vanished")
+        rep.touch(f)
+        st = [s_ for s_ in f.all_insts() if s_.op == "store" and pat.base_global(s_.d["ap"]) == "cds_lfht_workqueue_atfork_nesting"]
+        pat.require(st, "%s: nesting counter update" % name)
+        for s_ in st:
+            e = ir.expr(f, s_.args[0], 4)
+            want = 1 if op == "inc" else -1
+            ok = e[0] == "bin" and e[1] == "add" and e[3] == ("c", want) and e[2][0] == "load" and e[2][1] == "@cds_lfht_workqueue_atfork_nesting"
+            rep.check(ok, "C16.hooks", name + ".nesting", "nesting counter %s by one" % ("raised" if want == 1 else "lowered"), "nesting counter set to %s" % ir.expr_str(e), [s_.where()])
+        rep.must_pass("C16.hooks", name + ".nesting.every-return", f, [f.entry()], None, lambda i: i in st, to_exit=True, include_start=True, what="the nesting counter is updated on every returning path")
+
+
 RULES = [
     ("C16.handoff", rule_handoff),
     ("C16.handoff", rule_bp_handoff),
     ("C16.pause", rule_pause),
     ("C16.child", rule_child),
+    ("C16.hooks", rule_hooks),
 ]
 FLOORS = {}
